@@ -1,4 +1,5 @@
 import Dasp.Lemmas.Osc
+import Dasp.Lemmas.OscFP
 /-!
 # C17 — oscillators and noise sources keep phase and amplitude in range at any rate
 
@@ -22,9 +23,14 @@ data (hash primes, shift, mask, divisor, 256-entry PERM table, gradient masks, 0
 * **Theorems marked (any arithmetic)** hold for every instance, in particular for `floatArith`, the
   native-f64 instance that the driver executes bit-for-bit against the compiled code: the integer
   noise hash, the seed schedule, the pull counts.
-* What the f64 code computes *after rounding* (phase ∈ [0,1) in floats, saw/sine/simplex ∈ [−1,1] in
-  floats) is NOT a theorem here: it is measured on every run by the harness' native range oracles
-  (10^5–10^6-frame runs) and labelled a test in props/C17.json.  The known finding
+* **Theorems marked (f64)** (`fp_…`) are about the SAME model at its third instance `fpArith sinO`, the
+  executable soft-float of `Machine/FP.lean` (one round-to-nearest-even per `+ * /`, exact `%`): they say what
+  the f64 code computes *after rounding*.  That instance is also executed by the driver (stream `fp`) and
+  agrees bit-for-bit with the compiled code.  Proved there: the f64 phase stays finite in [0,1) for runs of any
+  length whenever every quotient hz/rate is finite (≤ 2^1023 − 2^52) and non-negative; f64 saw ∈ [−1,1]; f64 square
+  = ±1.  NOT proved in f64 (measured on every run by the harness' native range oracles over 10^5–10^6-frame runs,
+  labelled tests in props/C17.json): f64 sine ∈ [−1,1] (libm), f64 simplex ∈ [−1,1] (rounding slack of the
+  polynomial), f64 noise (exact by inspection: m < 2^31 and m/2^30 are dyadic — validated bit-for-bit).  The known finding
   `C17-step-overflow` (hz/rate = +inf ⇒ NaN) lies outside the exact model by construction (a
   rational quotient is always finite); it is re-confirmed on the real code by a probe on every run.
 -/
@@ -229,6 +235,60 @@ theorem simplex_in_range_partial (src : StepSrc Rat) (hs : SrcOK src) (n : Nat) 
     (phase_inv sinO (by norm_num) hs)).1 y hy
   have := abs_le.mp (simplexNoise1d_bound sinO h0 h1)
   rw [e]; constructor <;> linarith [this.1, this.2]
+
+/-! ### what the f64 code computes (soft-float instance, validated bit-for-bit by the `fp` stream) -/
+
+section fp
+variable (sinF : FP → FP)
+
+/-- (f64) **float phase invariant, runs of any length**: if every quotient `hz / rate` the step source computes is a
+    finite non-negative f64 (`FpSrcOK`: sign +, value ≤ 2^1023 − 2^52 — i.e. anything but the known finding
+    `C17-step-overflow` and the very top binade), every phase the f64 code yields is finite and in [0, 1): the
+    rounded sum `phase + step` cannot overflow and `% 1.0` is exact. -/
+theorem fp_phase_in_unit_interval (src : StepSrc FP) (hs : FpSrcOK (fpArith sinF) src) (k : Nat) :
+    ∀ y ∈ (run (nextPhase (fpArith sinF)) k (phase (fpArith sinF) src)).1,
+      ∃ (n : Bool) (a : Rat), y = .fin n a ∧ 0 ≤ a ∧ a < 1 ∧ (a = 0 ∨ n = false) := by
+  intro y hy
+  obtain ⟨n, a, h0, h1, hz, e⟩ := (fp_run_oscStep sinF Osc.phaseWrap (by decide) (by decide) id k _
+    (fp_phase_inv sinF Osc.phaseWrap (by decide) hs)).1 y hy
+  exact ⟨n, a, e, h0, by simpa [Osc.phaseWrap] using h1, hz⟩
+
+/-- (f64) the wrap in isolation: `(phase + step) % w` is finite in [0, w), or NaN exactly when the rounded sum is +inf -/
+theorem fp_wrap (a b : Rat) (ha : 0 ≤ a) (hb : 0 ≤ b) (w : Nat) (hw : 0 < w) (hw2 : w ≤ 2 ^ 52) :
+    (∃ n q, (fpArith sinF).rem ((fpArith sinF).add (.fin false a) (.fin false b)) ((fpArith sinF).ofNat w) = .fin n q ∧
+        0 ≤ q ∧ q < w) ∨
+    ((fpArith sinF).add (.fin false a) (.fin false b) = .inf false ∧
+      (fpArith sinF).rem ((fpArith sinF).add (.fin false a) (.fin false b)) ((fpArith sinF).ofNat w) = .nan) := by
+  rcases fp_wrap_range sinF a b false false ha hb (Or.inr rfl) (Or.inr rfl) w hw hw2 with ⟨n, q, e, q0, q1, _⟩ | h
+  · exact Or.inl ⟨n, q, e, q0, q1⟩
+  · exact Or.inr h
+
+/-- (f64) **every frame of a float saw / square run of any length** is finite and within [−1, 1] (square: exactly ±1),
+    under the same finiteness hypothesis on hz/rate.  (Rounding: `1 − 2·phase` is NOT always exact in f64 — e.g.
+    phase = 2^-60 — but rounding is monotone and ±1 are representable.) -/
+theorem fp_saw_square_in_range (src : StepSrc FP) (hs : FpSrcOK (fpArith sinF) src) (k : Nat) :
+    (∀ y ∈ (run (sawNext (fpArith sinF)) k (phase (fpArith sinF) src)).1, ∃ m q, y = .fin m q ∧ 0 ≤ q ∧ q ≤ 1) ∧
+    (∀ y ∈ (run (squareNext (fpArith sinF)) k (phase (fpArith sinF) src)).1, y = .fin false 1 ∨ y = .fin true 1) := by
+  have inv := fp_phase_inv sinF Osc.phaseWrap (by decide) hs
+  constructor
+  · intro y hy
+    obtain ⟨n, a, h0, h1, hz, e⟩ := (fp_run_oscStep sinF Osc.phaseWrap (by decide) (by decide) (sawWave (fpArith sinF)) k _ inv).1 y hy
+    rw [e]
+    exact fp_saw_range sinF n a h0 (by simpa [Osc.phaseWrap] using h1) hz
+  · intro y hy
+    obtain ⟨n, a, _, _, _, e⟩ := (fp_run_oscStep sinF Osc.phaseWrap (by decide) (by decide) (squareWave (fpArith sinF)) k _ inv).1 y hy
+    rw [e]
+    exact fp_square_values sinF _
+
+/-- non-vacuity (f64): a constant step of 1/4 (e.g. rate 4, hz 1: `div` is exact) satisfies the hypothesis -/
+example : FpSrcOK (fpArith sinF) (.const (.fin false (1/4))) := by
+  refine ⟨false, 1/4, rfl, by norm_num, Or.inr rfl, ?_⟩
+  have h1 : pow2 1023 = 2 * pow2 1022 := by rw [show (1023 : Int) = 1022 + 1 from rfl, pow2_succ]
+  have h2 : pow2 52 ≤ pow2 1022 := pow2_mono (by decide)
+  have h3 : (1 : Rat) ≤ pow2 52 := by rw [← pow2_zero]; exact pow2_mono (by decide)
+  linarith [pow2_pos 1022]
+
+end fp
 
 /-! ### non-vacuity: the hypotheses are satisfiable on non-trivial states and the statements have content -/
 
